@@ -4,12 +4,14 @@ pub mod coin;
 pub mod fields;
 pub mod frih;
 pub mod gen;
+pub mod genair;
 pub mod json;
 pub mod prng;
 pub mod refmath;
 pub mod report;
 pub mod rescue_consts;
 pub mod rescue_ref;
+pub mod stark;
 
 pub use json::{hex, J};
 pub use prng::{fnv, Rng};
